@@ -70,6 +70,7 @@ type c32Origin struct {
 	sawSimple bool
 	rangeReqs int
 	extra     int
+	active    int // handlers that have not returned yet (parked or still writing their answer)
 	stop      chan struct{}
 }
 
@@ -119,6 +120,14 @@ func (o *c32Origin) ServeHTTP(w http.ResponseWriter, r *http.Request) {
 	o.parked = append(o.parked, req)
 	o.mu.Unlock()
 
+	o.mu.Lock()
+	o.active++
+	o.mu.Unlock()
+	defer func() {
+		o.mu.Lock()
+		o.active--
+		o.mu.Unlock()
+	}()
 	var kind string
 	select {
 	case kind = <-req.release:
@@ -225,6 +234,7 @@ func (o *c32Origin) doRelease(p *c32Req) {
 
 type c32Spec struct {
 	res                      []byte
+	resTok                   string
 	thr, cs, maxfetch        int64
 	par, maxhedges, simple   int
 	mult, head               string
@@ -241,7 +251,20 @@ func c32ParseSpec(l string) c32Spec {
 		}
 	}
 	var s c32Spec
-	s.res, _ = hex.DecodeString(kv["res"])
+	if strings.HasPrefix(kv["res"], "gen:") { // gen:<len>:<a>:<b>: byte i = (i/4096)*a + b
+		p := strings.Split(kv["res"], ":")
+		n, _ := strconv.Atoi(p[1])
+		a, _ := strconv.Atoi(p[2])
+		b, _ := strconv.Atoi(p[3])
+		s.res = make([]byte, n)
+		for i := range s.res {
+			s.res[i] = byte((i/4096)*a + b)
+		}
+		s.resTok = kv["res"]
+	} else {
+		s.res, _ = hex.DecodeString(kv["res"])
+		s.resTok = "x" + kv["res"]
+	}
 	s.thr, _ = strconv.ParseInt(kv["thr"], 10, 64)
 	s.cs, _ = strconv.ParseInt(kv["cs"], 10, 64)
 	s.maxfetch, _ = strconv.ParseInt(kv["maxfetch"], 10, 64)
@@ -373,7 +396,15 @@ func c32RunOnce(s c32Spec, gap time.Duration) (obs string, got []byte, err error
 			}
 			continue
 		}
-		if time.Since(idleSince) > 1500*time.Millisecond {
+		// "nothing is coming": no request parked, no answer still being written, and the client has had
+		// time to read what was sent (scaled with the resource size for multi-megabyte bodies)
+		o.mu.Lock()
+		busy := o.active > 0
+		o.mu.Unlock()
+		if busy {
+			idleSince = time.Now()
+		}
+		if time.Since(idleSince) > 1500*time.Millisecond+time.Duration(len(s.res)/(1<<20))*400*time.Millisecond {
 			hang = true
 			break
 		}
@@ -390,7 +421,7 @@ func c32RunOnce(s c32Spec, gap time.Duration) (obs string, got []byte, err error
 	case panicked != nil:
 		obs = "panic"
 	case sawSimple && err == nil:
-		obs = "simple ok " + X(got)
+		obs = "simple ok " + c32Show(got)
 	case sawSimple:
 		obs = "simple err"
 	case err != nil && strings.Contains(err.Error(), "content too large"):
@@ -398,9 +429,21 @@ func c32RunOnce(s c32Spec, gap time.Duration) (obs string, got []byte, err error
 	case err != nil:
 		obs = "err"
 	default:
-		obs = "ok " + X(got)
+		obs = "ok " + c32Show(got)
 	}
 	return obs, got, err, false, panicked, o
+}
+
+// c32Show: short results in full, long ones as length + polynomial fingerprint (same rule as the driver).
+func c32Show(b []byte) string {
+	if len(b) <= 256 {
+		return X(b)
+	}
+	h := uint64(7)
+	for _, x := range b {
+		h = (h*31 + uint64(x)) % 1000000007
+	}
+	return fmt.Sprintf("len=%d fp=%d", len(b), h)
 }
 
 func c32ModelResp(kind string, s c32Spec) string {
@@ -458,7 +501,7 @@ func c32Exec(c *Case) {
 			mode = "aggr"
 		}
 		modelLine := fmt.Sprintf("fetch res=%s thr=%d cs=%d par=%d maxfetch=%d hedging=%s maxhedges=%d head=%s len=%d ranges=%s mode=%s resp=%s order=%s simple=%d",
-			X(s.res), s.thr, s.cs, s.par, s.maxfetch, hedging, s.maxhedges, headOK, length, ranges, mode, resp, ord, s.simple)
+			s.resTok, s.thr, s.cs, s.par, s.maxfetch, hedging, s.maxhedges, headOK, length, ranges, mode, resp, ord, s.simple)
 
 		gap := 2 * time.Millisecond
 		obs, got, err, hang, panicked, o := c32RunOnce(s, gap)
@@ -737,6 +780,30 @@ func c32Gen(g *Gen) {
 			resp = append(resp, fmt.Sprintf("%d:0:d", perm[k]))
 		}
 		g.Case(c32Line(res, 1, cs, par, 1000, Pick(r, []string{"off", "never"}), 0, "ok", resp, nil, 200))
+	}
+	// (g) defaulted chunk size (ChunkSizeBytes 0 / negative = 8 MiB) with a resource LARGER than the
+	// default chunk, i.e. at least two chunks computed from the default
+	big := func(n int, cs int64, par int, mult string, resp []string) string {
+		return fmt.Sprintf("fetch res=gen:%d:%d:%d thr=1 cs=%d par=%d maxfetch=%d mult=%s maxhedges=2 head=ok resp=%s order=- simple=200",
+			n, r.Range(1, 250), r.Range(0, 255), cs, par, 64<<20, mult, func() string {
+				if len(resp) == 0 {
+					return "-"
+				}
+				return strings.Join(resp, ",")
+			}())
+	}
+	// (the model side of one such case costs ~8 s and ~1.2 GB in the Lean driver: the quick tier has
+	// exactly one, in the corpus; the thorough tier adds more, up to 17 MiB)
+	if g.Thorough() {
+		g.Case(big(8*1024*1024+r.Range(1, 4096), 0, Pick(r, []int{2, 8}), "off", nil))
+		for i := 0; i < 4; i++ {
+			n := Pick(r, []int{8<<20 + 1, 16 << 20, 16<<20 + 1, 17<<20 + 123})
+			var resp []string
+			if r.Chance(40) {
+				resp = append(resp, fmt.Sprintf("%d:0:%s", r.Intn(3), Pick(r, []string{"w", "s100", "e500", "t8388608"})))
+			}
+			g.Case(big(n, Pick(r, []int64{0, 0, -1}), Pick(r, []int{1, 2, 8, 0}), Pick(r, []string{"off", "never"}), resp))
+		}
 	}
 	if g.Thorough() {
 		// exhaustive: 3 chunks, every assignment of {x, s1, w, e500} to the three initial attempts,
